@@ -3,6 +3,7 @@ package rules
 import (
 	"go/ast"
 	"go/token"
+	"go/types"
 	"strings"
 
 	"golang.org/x/tools/go/packages"
@@ -343,6 +344,131 @@ func R12EndpointKey(c *Ctx) {
 						c.R.Bad(rule, FuncShort(fn), "EndpointRemove(ExternalConfig.Endpoint)", c.pos(x.Pos()), "the route is removed by a different key than the configured endpoint it was registered under: the endpoint keeps routing to the removed listener (or another listener's endpoint is dropped)")
 					}
 				}
+			}
+		}
+	}
+}
+
+// R12RemoveIdempotent — removing what is not persisted is not an error.
+func R12RemoveIdempotent(c *Ctx) {
+	const rule = "R12-remove-idempotent"
+	c.R.Rule(rule, "the db.*Remove functions return a non-nil error only when a database/sql call failed (every returned error value is the error result of a Prepare/Exec/Query call, or nil): Teamserver.ListenerRemove deletes the row first and gives up on an error, so a Remove that reports 'no such row' would make listeners that were never persisted (service and ExternalC2 listeners) impossible to remove", 3)
+	for _, name := range []string{"DB.ListenerRemove", "DB.LinkRemove", "DB.AgentRemove"} {
+		fn := c.P.Func(PkgDB, name)
+		if fn == nil {
+			c.R.Anchor(rule, "db.(*"+name+")")
+			continue
+		}
+		bad := ""
+		var at token.Pos = fn.Pos()
+		for _, b := range fn.Blocks {
+			if len(b.Instrs) == 0 {
+				continue
+			}
+			ret, ok := b.Instrs[len(b.Instrs)-1].(*ssa.Return)
+			if !ok || len(ret.Results) == 0 {
+				continue
+			}
+			v := ret.Results[len(ret.Results)-1]
+			seen := map[ssa.Value]bool{}
+			var walk func(x ssa.Value)
+			walk = func(x ssa.Value) {
+				if seen[x] || bad != "" {
+					return
+				}
+				seen[x] = true
+				switch y := x.(type) {
+				case *ssa.Const:
+				case *ssa.Phi:
+					for _, e := range y.Edges {
+						walk(e)
+					}
+				case *ssa.Extract:
+					if call, ok := y.Tuple.(*ssa.Call); ok && strings.Contains(CalleeName(call), "database/sql.") {
+						return
+					}
+					bad, at = "an error taken from "+DescribeValue(y.Tuple), ret.Pos()
+				case *ssa.Call:
+					if strings.Contains(CalleeName(y), "database/sql.") {
+						return
+					}
+					bad, at = "an error made by "+CalleeName(y), ret.Pos()
+				case *ssa.UnOp:
+					if al, ok := y.X.(*ssa.Alloc); ok {
+						for _, r := range *al.Referrers() {
+							if st, ok := r.(*ssa.Store); ok && st.Addr == ssa.Value(al) {
+								walk(st.Val)
+							}
+						}
+						return
+					}
+					bad, at = "an error loaded from "+DescribeValue(y.X), ret.Pos()
+				case *ssa.MakeInterface:
+					bad, at = "a synthetic error value", ret.Pos()
+				default:
+					bad, at = "an error of unknown origin", ret.Pos()
+				}
+			}
+			walk(v)
+		}
+		construct := "errors only from database/sql"
+		if bad == "" {
+			c.R.Ok(rule, FuncShort(fn), construct, c.pos(fn.Pos()), "every returned error is a database/sql error or nil", true)
+		} else {
+			c.R.Bad(rule, FuncShort(fn), construct, c.pos(at), "returns "+bad+": removing something that has no row now fails, and ListenerRemove then leaves the listener running, routed and advertised")
+		}
+	}
+}
+
+// R12PointerHandlers — a running listener sees edits of its configuration.
+func R12PointerHandlers(c *Ctx) {
+	const rule = "R12-pointer-handlers"
+	c.R.Rule(rule, "every method of handlers.HTTP / handlers.External that reads the listener's Config has a pointer receiver: the request handler registered with the router is a bound method value, and with a value receiver it would bind a copy of the listener taken at start — ListenerEdit's in-place updates would never reach the next request", 3)
+	pk := c.P.ByPath[PkgHandlers]
+	if pk == nil {
+		c.R.Anchor(rule, PkgHandlers)
+		return
+	}
+	for _, f := range pk.Syntax {
+		for _, d := range f.Decls {
+			fd, ok := d.(*ast.FuncDecl)
+			if !ok || fd.Recv == nil || fd.Body == nil || len(fd.Recv.List) != 1 {
+				continue
+			}
+			rt := pk.TypesInfo.TypeOf(fd.Recv.List[0].Type)
+			if rt == nil {
+				continue
+			}
+			isPtr := false
+			base := rt
+			if p, ok := rt.(*types.Pointer); ok {
+				isPtr, base = true, p.Elem()
+			}
+			n, ok := base.(*types.Named)
+			if !ok || (n.Obj().Name() != "HTTP" && n.Obj().Name() != "External") {
+				continue
+			}
+			readsConfig := false
+			var recvName string
+			if len(fd.Recv.List[0].Names) == 1 {
+				recvName = fd.Recv.List[0].Names[0].Name
+			}
+			ast.Inspect(fd.Body, func(x ast.Node) bool {
+				if sel, ok := x.(*ast.SelectorExpr); ok && sel.Sel.Name == "Config" {
+					if id, ok := sel.X.(*ast.Ident); ok && id.Name == recvName {
+						readsConfig = true
+					}
+				}
+				return true
+			})
+			if !readsConfig {
+				continue
+			}
+			construct := "method reading Config has a pointer receiver"
+			if isPtr {
+				c.R.Ok(rule, DeclShort(pk, fd), construct, c.pos(fd.Pos()), "operates on the listener itself", false)
+			} else {
+				c.R.Bad(rule, DeclShort(pk, fd), construct, c.pos(fd.Pos()), "value receiver: a method value of it (as registered with the router) works on a copy of the listener made when it was bound; later edits of the configuration are not seen by requests")
 			}
 		}
 	}
